@@ -200,12 +200,15 @@ impl Prop for C09 {
         let own =["o0 BOOLEAN", "o1 NULL OPTIONAL", "o2 UTF8String"];
         for kind in ["SEQUENCE", "SET"] {
             for pool in ["Aaa", "Zzz"] {
-                for ref_marker in [false, true] {
-                    let refd = if ref_marker { format!("{pool} ::= {kind} {{ r0 INTEGER, r1 OCTET STRING OPTIONAL, ..., rx NULL }}") } else { format!("{pool} ::= {kind} {{ r0 INTEGER, r1 OCTET STRING OPTIONAL }}") };
-                    let inlined = "r0 INTEGER, r1 OCTET STRING OPTIONAL";
+                for (ref_marker, ref_size) in [(false, 2usize), (true, 2), (false, 1), (false, 4), (true, 4)] {
+                    // the referenced type has 1, 2 or 4 root components (the extension index of the including type
+                    // moves by the number of included components, not by one per COMPONENTS OF)
+                    let inlined = ["r0 INTEGER", "r0 INTEGER, r1 OCTET STRING OPTIONAL", "", "r0 INTEGER, r1 OCTET STRING OPTIONAL, r2 BOOLEAN, r3 UTF8String"][ref_size - 1];
+                    let refd = if ref_marker { format!("{pool} ::= {kind} {{ {inlined}, ..., rx NULL }}") } else { format!("{pool} ::= {kind} {{ {inlined} }}") };
+                    let size_label = if ref_size == 2 { String::new() } else { format!("|ref-size={ref_size}") };
                     for n in 0..=3usize {
                         for pos in 0..=n {
-                            for marker in [None, Some(0usize), Some(n + 1)] {
+                            for (marker, with_addition) in [(None, false), (Some(0usize), true), (Some(n + 1), true), (Some(n + 1), false)] {
                                 // component list of length n+1 with COMPONENTS OF at `pos`; optional marker before index m
                                 let mut sug: Vec<String> = own[..n].iter().map(|s| s.to_string()).collect();
                                 let mut exp = sug.clone();
@@ -222,12 +225,14 @@ impl Prop for C09 {
                                     }
                                     sug.insert(m, "...".into());
                                     exp.insert(m, "...".into());
-                                    sug.push("late BOOLEAN".into());
-                                    exp.push("late BOOLEAN".into());
+                                    if with_addition {
+                                        sug.push("late BOOLEAN".into());
+                                        exp.push("late BOOLEAN".into());
+                                    }
                                 }
                                 let s = vec![refd.clone(), format!("Mid ::= {kind} {{ {} }}", sug.join(", "))];
                                 let e = vec![refd.clone(), format!("Mid ::= {kind} {{ {} }}", exp.join(", "))];
-                                push("components-of", format!("components-of|kind={kind}|names={pool}|n={n}|pos={}|marker={}|ref-marker={ref_marker}", if pos == 0 { "first" } else if pos == n { "last" } else { "mid" }, marker.is_some()), s, e, vec!["Mid"]);
+                                push("components-of", format!("components-of|kind={kind}|names={pool}|n={n}|pos={}|marker={}|ref-marker={ref_marker}{size_label}{}", if pos == 0 { "first" } else if pos == n { "last" } else { "mid" }, marker.is_some(), if marker.is_some() && !with_addition { "|no-additions" } else { "" }), s, e, vec!["Mid"]);
                             }
                         }
                     }
